@@ -13,6 +13,7 @@ HERE = os.path.dirname(os.path.dirname(os.path.abspath(__file__)))
 mode = sys.argv[1] if len(sys.argv) > 1 and not sys.argv[1].startswith("-") else "all"
 only = sys.argv[sys.argv.index("--only") + 1] if "--only" in sys.argv else None
 jobs = int(sys.argv[sys.argv.index("--jobs") + 1]) if "--jobs" in sys.argv else 2
+match = sys.argv[sys.argv.index("--match") + 1] if "--match" in sys.argv else None
 
 
 def sh(cmd, **kw):
@@ -65,7 +66,7 @@ if mode in ("reverts", "all"):
 if mode in ("seeds", "all"):
     for sd in sorted(glob.glob(os.path.join(HERE, "seeded", "C*/"))):
         sid = os.path.basename(sd.rstrip("/"))
-        if only and sid != only:
+        if (only and sid != only) or (match and match not in sid):
             continue
         meta_p = os.path.join(sd, "meta.json")
         meta = json.load(open(meta_p)) if os.path.exists(meta_p) else {}
